@@ -18,8 +18,13 @@ func ServeLink(srv *rpc.Server, link *FrameLink, enc string, directIO bool) chan
 
 // ServeLinkWith is ServeLink with a chosen body codec.
 func ServeLinkWith(srv *rpc.Server, link *FrameLink, enc string, directIO bool, body rpc.Codec) chan struct{} {
+	return ServeLinkBuf(srv, link, enc, directIO, body, 0)
+}
+
+// ServeLinkBuf is ServeLinkWith with a buffer size for the server codec.
+func ServeLinkBuf(srv *rpc.Server, link *FrameLink, enc string, directIO bool, body rpc.Codec, bufferSize int) chan struct{} {
 	done := make(chan struct{})
-	codec := rpc.NewServerCodec(body, HeaderEncoder(enc), link.S, directIO, 0)
+	codec := rpc.NewServerCodec(body, HeaderEncoder(enc), link.S, directIO, bufferSize)
 	go func() {
 		srv.ServeCodec(codec)
 		close(done)
